@@ -269,6 +269,11 @@ def _torch_tensor(data, dtype=None, device=None, requires_grad=False):
         return t
     if isinstance(data, (list, tuple)) and all(is_conc(v) for v in data):
         return list(data)       # small integer index lists (index_select)
+    if isinstance(data, float) or (isinstance(data, (int, Fr)) and not isinstance(data, bool)) or data is SQRT2:
+        # 0-dim constant; a python float becomes a tensor of the DEFAULT dtype (the dtype ghost then records where it meets data)
+        v = data if data is SQRT2 else Fr(data)
+        dt = dtype if dtype is not None else (DT_DEFAULT if isinstance(data, float) or data is SQRT2 else DType('int64'))
+        return STensor((), lambda idx: v, meta={'kind': 'torch', 'dtype': dt, 'contig': True})
     raise Unsupported('torch.tensor(%r)' % (data,))
 
 
@@ -297,6 +302,8 @@ def _torch_sqrt(x):
         v = xs(idx)
         if isinstance(v, GS) and v.t:
             raise Unsupported('torch.sqrt of data is non-linear (not representable in kernel mode)')
+        if isinstance(v, (int, Fr)) and v == 2:
+            return SQRT2
         return tv_sqrt(v)
     return fresh_like(x.shape, elem, x)
 
@@ -689,11 +696,36 @@ def _dict(v=()):
 CURHOOK = {}
 
 
+def _minmax(is_min):
+    def f(*a, **kw):
+        from fractions import Fraction
+        if kw:
+            raise Unsupported('min/max with keyword arguments')
+        if len(a) == 1:
+            a = list(a[0])
+        if all(isinstance(q, (int, float, Fraction)) and not isinstance(q, bool) for q in a):
+            return (min if is_min else max)(a)
+        if any(not isinstance(q, (int, Fraction, z3.ArithRef)) for q in a):
+            raise Unsupported('min/max of %r' % (a,))
+        r = a[0]
+        for q in a[1:]:
+            le = ctx().decide(I(r) <= I(q))          # forks the path
+            r = (r if le else q) if is_min else (q if le else r)
+        return r
+    return f
+
+
+def _abs(v):
+    if isinstance(v, z3.ArithRef):
+        return v if ctx().decide(I(v) >= 0) else -v
+    return abs(v)
+
+
 def builtins(it):
     from .interp import ExcTok
     b = {'isinstance': _isinstance(it), 'len': _len, 'tuple': _tuple, 'list': _list, 'range': _range,
          'zip': lambda *a: list(zip(*a)), 'dict': _dict, 'int': lambda v: v, 'float': lambda v: v,
-         'str': str, 'max': max, 'min': min, 'abs': abs, 'print': lambda *a, **k: None,
+         'str': str, 'max': _minmax(False), 'min': _minmax(True), 'abs': _abs, 'print': lambda *a, **k: None,
          'True': True, 'False': False, 'None': None}
     for e in ('ValueError', 'NotImplementedError', 'ImportError', 'KeyError', 'IOError', 'TypeError',
               'AssertionError', 'RuntimeError', 'IndexError', 'Exception', 'AttributeError'):
